@@ -88,16 +88,20 @@ def _real(case, F, G, Bc):
         out['_extra']['cerode:out=fresh-dirty'] = (mh.cerode(F, G, Bc, out=b5), b5, 'cerode')
     if case.get('alias'):      # `out=` is the input image itself (elementwise last stage: the top-hats)
         f1, f2 = np.ascontiguousarray(F).copy(), np.ascontiguousarray(F).copy()
+        v2 = f2[...]
         out['_extra']['thopen:out=alias-f'] = (mh.morph.tophat_open(f1, Bc, out=f1), f1, 'thopen')
-        out['_extra']['thclose:out=alias-f'] = (mh.morph.tophat_close(f2, Bc, out=f2), f2, 'thclose')
+        out['_extra']['thclose:out=alias-f'] = (mh.morph.tophat_close(f2, Bc, out=v2), v2, 'thclose')
         # in place on the image (and, for cerode, on the condition): accepted by _get_output; since fix be1beaf the wrappers copy
         # the input the kernel would otherwise read while overwriting it
         f3, f4, f5, g5 = (np.ascontiguousarray(F).copy() for _ in range(3)), None, None, None
         f3, f4, f5 = f3
         g5 = np.ascontiguousarray(G).copy()
-        out['_extra']['open:out=alias-f'] = (mh.open(f3, Bc, out=f3), f3, 'open')
+        # the alias is handed over as ANOTHER view object of the same memory for open and cerode (`vol[z]` twice, `f[...]`): an
+        # in-place test by object identity (`out is f`) must not be what protects the input
+        v3, v5 = f3[...], f5.reshape(f5.shape)
+        out['_extra']['open:out=alias-f'] = (mh.open(f3, Bc, out=v3), v3, 'open')
         out['_extra']['close:out=alias-f'] = (mh.close(f4, Bc, out=f4), f4, 'close')
-        out['_extra']['cerode:out=alias-f'] = (mh.cerode(f5, G, Bc, out=f5), f5, 'cerode')
+        out['_extra']['cerode:out=alias-f'] = (mh.cerode(f5, G, Bc, out=v5), v5, 'cerode')
         out['_extra']['cerode:out=alias-g'] = (mh.cerode(F, g5, Bc, out=g5), g5, 'cerode')
     out['cerode'] = mh.cerode(F, G, Bc)
     out['cdilate'] = mh.cdilate(F, G, Bc, case['n'])
@@ -319,7 +323,8 @@ def _eval_subm(case):
     # ("Pass a as output to subtract in-place"); alias-b and a pre-dirtied separate buffer are accepted by the wrapper as well.
     if mode == 'alias-a':
         Al = np.ascontiguousarray(Al).copy()
-        res = mh.morph.subm(Al, Bl, out=Al); same = res is Al
+        o_ = Al if len(alla) % 2 else Al[...]          # the very object, or another view object of the same memory
+        res = mh.morph.subm(Al, Bl, out=o_); same = res is o_
     elif mode == 'alias-b':
         Bl = np.ascontiguousarray(Bl).copy()
         res = mh.morph.subm(Al, Bl, out=Bl); same = res is Bl
